@@ -83,6 +83,12 @@ class Falsy(metaclass=_FalsyMeta):
     """a class OBJECT that is falsy (its metaclass defines __len__, as registries and record classes do); instances are truthy"""
 
 
+class WithCall:
+    """an ordinary class whose instances are callable: its class is WithCall, not Callable"""
+    def __call__(self, *a):
+        return 0
+
+
 class MyTuple(tuple):
     pass
 
